@@ -365,7 +365,7 @@ func TestVerifC05(t *testing.T) {
 	}
 	var jobs []job
 	ws := []int{2}
-	bs := []int{1, 2, 6}
+	bs := []int{1, 3}
 	if verifkit.Thorough() {
 		ws = []int{2, 3}
 		bs = []int{1, 2, 3, 6}
@@ -397,7 +397,7 @@ func TestVerifC05(t *testing.T) {
 					if verifkit.Thorough() {
 						jobs = append(jobs, job{p, 2, 1, 150000})
 					} else {
-						jobs = append(jobs, job{p, 1, 1, 40000})
+						jobs = append(jobs, job{p, 1, 1, 15000})
 					}
 				}
 			}
